@@ -8,3 +8,16 @@ ENGINES = [
 NOTES = ("All checks: ./check <id> --tier quick|thorough. Exit 0 = held, 1 = VIOLATION line, 2 = machinery error. "
          "Known findings: /verif/known_findings.json.")
 REG = {}
+
+_NOTE = ("Trusted base: TLC; harness/gamma.py (writer) and harness/alpha.py (independent parser), self-checked "
+         "at run time; the in-process scheduled pool (harness/shims.py) standing in for multiprocessing with "
+         "pickled arguments/results; bounds of the model instances as listed in the evidence file.")
+
+REG["C05"] = {
+    "technique": "TLC model checking of Colander.tla (refinement of StrainSpec over all layouts/variable lists/limits/pool schedules) + replay of every TLC behaviour into the real Colander with token-exact comparison via an independent parser",
+    "level_text": ("Exhaustive within bounds: every input layout (<=3 boxes/level over <=3 files in every on-disk order, <=2 levels), "
+                   "every ordered variable list incl. unknown names and 'all', every level limit and every pool completion order is "
+                   "model-checked against the requirement operator and replayed into the real code in 2D and 3D with bit-exact "
+                   "(NaN/inf/denormal) payloads; the real validator must accept each output."),
+    "level_note": _NOTE,
+}
